@@ -73,3 +73,9 @@ package index
 //@   props C12 C03
 //@   nopanic
 //@   alloc_budget 65536
+
+// bytes handed out by segment.Data.Read alias the mapped file: they must not be touched after
+// the closer returned by Directory.Load has been closed (unmap).
+//@ func Writer.loadSnapshot
+//@   props C12 C03
+//@   borrow Data.Read until Closer.Close
